@@ -146,7 +146,24 @@ def run(ctx):
         return
     arm = arms[0]['arms']['Uncompressed']
     inarm = [c for c in fn.calls() if fn.dominates(arm, c.bb)]
-    sort = [c for c in inarm if c.name in ('sort_by', 'sort_unstable_by', 'sort_by_key', 'sort_by_cached_key')]
+    SORTS = ('sort_by', 'sort_unstable_by', 'sort_by_key', 'sort_by_cached_key')
+    sort = [c for c in inarm if c.name in SORTS]
+    host = fn
+    docs_pred = lambda sl_: sl_.has_field('VecIndex::Uncompressed', 'documents')
+    if not sort:
+        # the body of the exact arm extracted into a private helper that receives `documents`: decide the same clauses inside it
+        for hc in inarm:
+            h = F.fns.get(hc.local_callee) if hc.local_callee else None
+            if h is None or h.is_closure or not any(c.name in SORTS for c in h.calls()):
+                continue
+            ps = [k + 1 for k, a in enumerate(hc.args) if lib.slice_back(fn, [a], through_calls=True, at=(hc.bb, None)).has_field('VecIndex::Uncompressed', 'documents')]
+            if ps:
+                host = h
+                ctx.touch(h, len(h.blocks))
+                inarm = list(h.calls())
+                sort = [c for c in inarm if c.name in SORTS]
+                docs_pred = lambda sl_, ps=tuple(ps): bool(set(ps) & sl_.args)
+                break
     trunc = [c for c in inarm if c.name in ('truncate', 'take')]
     maps = [c for c in inarm if c.name == 'map']
     ctx.evaluations += len(inarm)
@@ -156,22 +173,22 @@ def run(ctx):
     # every document is scored: map over an iterator of the arm's `documents`
     docs_ok = False
     for m in maps:
-        sl = lib.slice_back(fn, m.args[:1], through_calls=True, at=(m.bb, None))
-        if sl.has_field('VecIndex::Uncompressed', 'documents') and not any(c.name in ('filter', 'take', 'skip', 'step_by', 'take_while') for c in sl.calls):
+        sl = lib.slice_back(host, m.args[:1], through_calls=True, at=(m.bb, None))
+        if docs_pred(sl) and not any(c.name in ('filter', 'take', 'skip', 'step_by', 'take_while') for c in sl.calls):
             docs_ok = True
     if docs_ok:
-        ctx.ok('SHAPE-C13b', fn, 'every document of the index is scored (map over documents.iter(), no filter/take)', line=maps[0].line)
+        ctx.ok('SHAPE-C13b', host, 'every document of the index is scored (map over documents.iter(), no filter/take)', line=maps[0].line)
     else:
-        ctx.bad('SHAPE-C13b', fn, 'not every document is scored before ranking', detail='partial-scoring')
-    if trunc and all(lib.call_success_dominates(fn, sort[0], t.bb) for t in trunc):
-        ctx.ok('SHAPE-C13b', fn, 'truncate(limit) after the sort', line=trunc[0].line)
+        ctx.bad('SHAPE-C13b', host, 'not every document is scored before ranking', detail='partial-scoring')
+    if trunc and all(lib.call_success_dominates(host, sort[0], t.bb) for t in trunc):
+        ctx.ok('SHAPE-C13b', host, 'truncate(limit) after the sort', line=trunc[0].line)
     elif trunc:
-        ctx.bad('SHAPE-C13b', fn, 'results are truncated before they are sorted', line=trunc[0].line, detail='truncate-before-sort')
+        ctx.bad('SHAPE-C13b', host, 'results are truncated before they are sorted', line=trunc[0].line, detail='truncate-before-sort')
     else:
-        ctx.bad('SHAPE-C13b', fn, 'results are not limited', detail='no-truncate')
+        ctx.bad('SHAPE-C13b', host, 'results are not limited', detail='no-truncate')
     # comparator orientation
     cl = None
-    sl = lib.slice_back(fn, sort[0].args[1:2], through_calls=False, at=(sort[0].bb, None))
+    sl = lib.slice_back(host, sort[0].args[1:2], through_calls=False, at=(sort[0].bb, None))
     for cdef in sl.closures:
         cl = F.fns.get(cdef)
     if cl is None:
